@@ -2,6 +2,7 @@
 import sys
 
 from sa import report, rules_lang as RL, rules_repr as RR2, rules_emit as RE
+from sa import rules_extra as RX
 
 
 def run(ctx, repo):
@@ -33,6 +34,8 @@ def run(ctx, repo):
     L = RL.langs(repo)
     ctx.extra['alphabet_classes'] = L.alpha.n
     ctx.extra['dfa_states'] = {k.split(':')[-1]: v.nstates for k, v in L.dfa.items()}
+
+    RX.r_timestamp_int_fields(ctx, repo)
 
 
 if __name__ == '__main__':
